@@ -747,77 +747,93 @@ Local Close Scope Z_scope.
 
 (* ------------------------------------------------------------------ PART B *)
 Section B.
-Context (add : adder) (F H : arr).
+Context (add : adder) (F H D U : arr).
 
 Definition iinv (st : istate) : Prop :=
-  (0 < length (i_heap st))%nat /\ hget (i_heap st) 0 = F /\
-  (forall c, i_cF st = Some c -> (0 < c < length (i_heap st))%nat /\ hget (i_heap st) c = F) /\
-  (forall c, i_cFR st = Some c -> (0 < c < length (i_heap st))%nat /\ hget (i_heap st) c = add F H).
+  (1 < length (i_heap st))%nat /\ hget (i_heap st) 0 = F /\ hget (i_heap st) 1 = D /\
+  (forall c, i_cF st = Some c -> (1 < c < length (i_heap st))%nat /\ hget (i_heap st) c = F) /\
+  (forall c, i_cFR st = Some c -> (1 < c < length (i_heap st))%nat /\ hget (i_heap st) c = add F H).
 
-Lemma iinv0 : iinv (ist0 F).
+Lemma iinv0 : iinv (ist0 F D).
 Proof. repeat split; cbn; try lia; try discriminate. Qed.
 
-Lemma iread_F_inv preload st :
-  iinv st -> let r := iread_F ifaithful preload F st in
+Lemma iread_F_inv pre st :
+  iinv st -> let r := iread_F ifaithful pre F D U st in
   iinv (fst r) /\ i_cF (fst r) = Some (snd r) /\ i_cFR (fst r) = i_cFR st.
 Proof.
-  intros (Hl & H0 & HF & HFR). unfold iread_F.
+  intros (Hl & H0 & H1 & HF & HFR). unfold iread_F.
   destruct (i_cF st) as [c|] eqn:Ec.
-  - cbn. split; [|split; [exact Ec | reflexivity]]. split; [exact Hl|]. split; [exact H0|]. split; [|exact HFR].
+  - cbn. split; [|split; [exact Ec | reflexivity]]. split; [exact Hl|]. split; [exact H0|]. split; [exact H1|]. split; [|exact HFR].
     intros c0 Hc0. rewrite Ec in Hc0. apply HF. exact Hc0.
-  - assert (Hgen : forall v, v = F ->
-      iinv (mkIState (i_heap st ++ [v]) (Some (length (i_heap st))) (i_cFR st))).
-    { intros v ->. unfold iinv. cbn [i_heap i_cF i_cFR]. split; [rewrite app_length; cbn; lia|].
-      split; [rewrite hget_app_old by lia; exact H0|]. split.
-      - intros c Hc. inversion Hc; subst. split; [rewrite app_length; cbn; lia | apply hget_app_new].
-      - intros c Hc. destruct (HFR c Hc) as [Hr Hv]. split; [rewrite app_length; cbn; lia|].
-        rewrite hget_app_old by lia. exact Hv. }
-    destruct preload; cbn [ifaithful ip_preload_copied]; unfold halloc; cbn [fst snd].
-    + split; [apply Hgen; exact H0 | split; reflexivity].
-    + split; [apply Hgen; reflexivity | split; reflexivity].
+  - (* appending cells after the existing ones, the new last cell holding F *)
+    assert (Hgen : forall l, iinv (mkIState ((i_heap st ++ l) ++ [F]) (Some (length (i_heap st ++ l))) (i_cFR st))).
+    { intros l. unfold iinv. cbn [i_heap i_cF i_cFR].
+      assert (Hlen : (length ((i_heap st ++ l) ++ [F]) = length (i_heap st) + length l + 1)%nat)
+        by (rewrite !app_length; cbn; lia).
+      split; [lia|].
+      split; [rewrite <- app_assoc, hget_app_old by lia; exact H0|].
+      split; [rewrite <- app_assoc, hget_app_old by lia; exact H1|]. split.
+      - intros c Hc. inversion Hc; subst. split; [rewrite app_length; lia | apply hget_app_new].
+      - intros c Hc. destruct (HFR c Hc) as [Hr Hv]. split; [lia|].
+        rewrite <- app_assoc, hget_app_old by lia. exact Hv. }
+    destruct pre; cbn [ifaithful ip_preload_copied ip_diag_copied]; unfold halloc; cbn [fst snd].
+    + (* PNone *) specialize (Hgen []). rewrite app_nil_r in Hgen. split; [exact Hgen | split; reflexivity].
+    + (* PCurv: a copy of cell 0 *) rewrite H0. specialize (Hgen []). rewrite app_nil_r in Hgen.
+      split; [exact Hgen | split; reflexivity].
+    + (* PDiag: a copy of cell 1, overwritten with U, then F in a new cell *)
+      rewrite hset_app_new. specialize (Hgen [U]). split; [exact Hgen | split; reflexivity].
 Qed.
 
-Lemma istep_inv preload st q :
-  iinv st -> iinv (fst (istep add ifaithful preload F H st q)) /\ snd (istep add ifaithful preload F H st q) = ispec add F H q.
+Lemma istep_inv pre st q :
+  iinv st -> iinv (fst (istep add ifaithful pre F H D U st q)) /\ snd (istep add ifaithful pre F H D U st q) = ispec add F H D q.
 Proof.
-  intros Hi. pose proof Hi as (Hl & H0 & HF & HFR). destruct q; cbn [istep ispec].
-  - pose proof (iread_F_inv preload st Hi) as Hr. cbn zeta in Hr.
-    destruct (iread_F ifaithful preload F st) as [st1 c]. cbn [fst snd] in *. destruct Hr as (Hi1 & Hc & _).
-    split; [exact Hi1|]. destruct Hi1 as (_ & _ & HF1 & _). now destruct (HF1 c Hc).
+  intros Hi. pose proof Hi as (Hl & H0 & H1 & HF & HFR). destruct q; cbn [istep ispec].
+  - pose proof (iread_F_inv pre st Hi) as Hr. cbn zeta in Hr.
+    destruct (iread_F ifaithful pre F D U st) as [st1 c]. cbn [fst snd] in *. destruct Hr as (Hi1 & Hc & _).
+    split; [exact Hi1|]. destruct Hi1 as (_ & _ & _ & HF1 & _). now destruct (HF1 c Hc).
   - destruct (i_cFR st) as [c|] eqn:Ec.
     + cbn. split; [exact Hi|]. now destruct (HFR c eq_refl).
-    + pose proof (iread_F_inv preload st Hi) as Hr. cbn zeta in Hr.
-      destruct (iread_F ifaithful preload F st) as [st1 c]. cbn [fst snd] in *. destruct Hr as (Hi1 & Hc & HcFR).
-      destruct Hi1 as (Hl1 & H01 & HF1 & HFR1). destruct (HF1 c Hc) as [Hcr Hcv].
+    + pose proof (iread_F_inv pre st Hi) as Hr. cbn zeta in Hr.
+      destruct (iread_F ifaithful pre F D U st) as [st1 c]. cbn [fst snd] in *. destruct Hr as (Hi1 & Hc & HcFR).
+      destruct Hi1 as (Hl1 & H01 & H11 & HF1 & HFR1). destruct (HF1 c Hc) as [Hcr Hcv].
       cbn [ifaithful ip_entry_deleted fst snd]. rewrite Hcv.
       split; [|apply hget_hset_same; lia].
       split; [cbn; rewrite hset_length; lia|]. cbn [i_heap i_cF i_cFR].
-      split; [rewrite hget_hset_other by lia; exact H01|]. split; [discriminate|].
+      split; [rewrite hget_hset_other by lia; exact H01|].
+      split; [rewrite hget_hset_other by lia; exact H11|]. split; [discriminate|].
       intros c' Hc'. inversion Hc'; subst c'. rewrite hset_length. split; [lia | apply hget_hset_same; lia].
   - cbn. split; [exact Hi | exact H0].
+  - cbn. split; [exact Hi | exact H1].
 Qed.
 
-Lemma irun_pure preload qs : forall st, iinv st -> irun add ifaithful preload F H st qs = map (ispec add F H) qs.
+Lemma irun_pure pre qs : forall st, iinv st -> irun add ifaithful pre F H D U st qs = map (ispec add F H D) qs.
 Proof.
   induction qs as [|q t IH]; intros st Hi; cbn; [reflexivity|].
-  pose proof (istep_inv preload st q Hi) as [Hi1 Hv].
-  destruct (istep add ifaithful preload F H st q) as [st1 v]. cbn in *. now rewrite Hv, IH.
+  pose proof (istep_inv pre st q Hi) as [Hi1 Hv].
+  destruct (istep add ifaithful pre F H D U st q) as [st1 v]. cbn in *. now rewrite Hv, IH.
 Qed.
 
-Lemma inversion_reads_pure preload qs : irun add ifaithful preload F H (ist0 F) qs = map (ispec add F H) qs.
+Lemma inversion_reads_pure pre qs : irun add ifaithful pre F H D U (ist0 F D) qs = map (ispec add F H D) qs.
 Proof. apply irun_pure, iinv0. Qed.
 End B.
 
 Definition vadd (a b : arr) : arr := map (fun xy => (fst xy + snd xy)%Z) (combine a b).
 (* without the copy.copy of the preloaded matrix the caller's preload is overwritten *)
 Lemma inversion_preload_alias_refuted :
-  irun vadd (mkIPolicy false true) true [1; 2]%Z [10; 10]%Z (ist0 [1; 2]%Z) [QFR; QPre]
-  <> map (ispec vadd [1; 2]%Z [10; 10]%Z) [QFR; QPre].
+  irun vadd (mkIPolicy false true true) PCurv [1; 2]%Z [10; 10]%Z [1; 0]%Z [1; 0]%Z (ist0 [1; 2]%Z [1; 0]%Z) [QFR; QPre]
+  <> map (ispec vadd [1; 2]%Z [10; 10]%Z [1; 0]%Z) [QFR; QPre].
 Proof. vm_compute; discriminate. Qed.
 (* without `del self.__dict__["curvature_matrix"]` a later curvature_matrix read reports F + H *)
 Lemma inversion_entry_kept_refuted :
-  irun vadd (mkIPolicy true false) false [1; 2]%Z [10; 10]%Z (ist0 [1; 2]%Z) [QF; QFR; QF]
-  <> map (ispec vadd [1; 2]%Z [10; 10]%Z) [QF; QFR; QF].
+  irun vadd (mkIPolicy true false true) PNone [1; 2]%Z [10; 10]%Z [1; 0]%Z [1; 0]%Z (ist0 [1; 2]%Z [1; 0]%Z) [QF; QFR; QF]
+  <> map (ispec vadd [1; 2]%Z [10; 10]%Z [1; 0]%Z) [QF; QFR; QF].
+Proof. vm_compute; discriminate. Qed.
+(* D20 (repaired): without the copy.copy of the preloaded block-diagonal matrix the off-diagonal blocks are written
+   into the caller's array: D = [[1,0],[0,4]], U = [[1,2],[0,4]], F = mirror U *)
+Lemma inversion_preload_diag_alias_refuted :
+  irun vadd (mkIPolicy true true false) PDiag [1; 2; 2; 4]%Z [10; 0; 0; 10]%Z [1; 0; 0; 4]%Z [1; 2; 0; 4]%Z
+       (ist0 [1; 2; 2; 4]%Z [1; 0; 0; 4]%Z) [QF; QPreDiag]
+  <> map (ispec vadd [1; 2; 2; 4]%Z [10; 0; 0; 10]%Z [1; 0; 0; 4]%Z) [QF; QPreDiag].
 Proof. vm_compute; discriminate. Qed.
 
 (* ------------------------------------------------------------------ PART C *)
